@@ -581,10 +581,10 @@ func runC06(r *core.Run) {
 			return core.Outcome{Class: fmt.Sprint("end1%4096=", min(c.End1%4096, 2), " items=", min(len(got), 2)), Nontrivial: true, Evals: 2}
 		})
 
-	core.Clause(r, "file-grid", core.Opts{Rule: "every format (SAM: File and FileHeader) x {plain, .gz written with compress/gzip} x content {empty file, one record, many records, a file whose decode ends in an error item, the 9 KiB file, the long-line file, a file with one line of 70 000 bytes, one with a line of 2 MiB, a ~300 KiB file} plus a multi-member .gz: File(path) yields what Reader yields on the bytes; a missing path yields exactly one item, an error - also when its compressed or uncompressed twin, a backup, another compression or an upper-case twin exists next to it; how the path reaches the file plays no role (blanks and non-ASCII in it, a directory whose name ends in .gz, a symbolic link, a relative path, dot segments); non-trivial = all"},
+	core.Clause(r, "file-grid", core.Opts{Rule: "every format (SAM: File and FileHeader) x {plain, .gz written with compress/gzip} x content {empty file, one record, many records, a file whose decode ends in an error item, the 9 KiB file, the long-line file, a file with one line of 70 000 bytes, one with a line of 2 MiB, a ~300 KiB file} plus a multi-member .gz: File(path) yields what Reader yields on the bytes; a missing path yields exactly one item, an error - also when its compressed or uncompressed twin, a backup, another compression or an upper-case twin exists next to it; names with a meaning for command-line tools or URL-aware openers (\"-\", the empty name, \"stdin\", \"~\", http:// and file:// URLs) are ordinary missing paths; how the path reaches the file plays no role (blanks and non-ASCII in it, a directory whose name ends in .gz, a symbolic link, a relative path, dot segments); non-trivial = all"},
 		func(emit func(c06File) bool) {
 			for _, f := range formats {
-				for _, what := range []string{"empty", "one", "many", "error", "error-middle", "large", "longline", "line-70KiB", "line-2MiB", "huge", "gzip-magic", "zstd-magic", "gzip-bytes", "missing", "missing-next-to-compressed-twin", "missing-next-to-plain-twin", "missing-next-to-backup", "missing-next-to-other-compression", "missing-next-to-upper-case-twin", "path:space-and-unicode", "path:dir-named-like-gz", "path:symlink", "path:relative", "path:dot-segments"} {
+				for _, what := range []string{"empty", "one", "many", "error", "error-middle", "large", "longline", "line-70KiB", "line-2MiB", "huge", "gzip-magic", "zstd-magic", "gzip-bytes", "missing", "missing-next-to-compressed-twin", "missing-next-to-plain-twin", "missing-next-to-backup", "missing-next-to-other-compression", "missing-next-to-upper-case-twin", "missing-special-name:-", "missing-special-name:", "missing-special-name:stdin", "missing-special-name:/dev/stdin/x", "missing-special-name:~", "missing-special-name:http://example.org/x.fa", "missing-special-name:file:///etc/hostname", "path:space-and-unicode", "path:dir-named-like-gz", "path:symlink", "path:relative", "path:dot-segments"} {
 					for _, gz := range []bool{false, true} {
 						emit(c06File{f.Name, what, gz})
 					}
@@ -639,6 +639,25 @@ func runC06(r *core.Run) {
 					return core.Failf("%s.File(%q): the path does not exist (only %q does) but File yields %s, want exactly one error item", c.Format, filepath.Base(ask), filepath.Base(sibling), trunc(renderObs(items), 300))
 				}
 				return core.OK(c.What, true)
+			}
+			if strings.HasPrefix(c.What, "missing-special-name:") {
+				// names that mean something to command-line tools ("-" is standard input for samtools & co.);
+				// for File they are ordinary paths, and these do not exist in the working directory
+				ask := strings.TrimPrefix(c.What, "missing-special-name:")
+				if c.Gz {
+					ask += ".gz"
+				}
+				if _, err := os.Lstat(ask); err == nil || ask == ".gz" {
+					return core.Outcome{Class: "HARNESS such a file exists in the working directory", Skip: true}
+				}
+				items, p, _ := f.File(ask, 1000)
+				if p != "" {
+					return core.Failf("%s.File(%q) panicked: %s", c.Format, ask, p)
+				}
+				if len(items) != 1 || !items[0].IsErr() {
+					return core.Failf("%s.File(%q): there is no such file, but File yields %s, want exactly one error item", c.Format, ask, trunc(renderObs(items), 300))
+				}
+				return core.OK("missing special name", true)
 			}
 			if c.What == "missing" {
 				path = filepath.Join(scratch, "no-such-dir", name)
